@@ -104,6 +104,7 @@ const (
 	NotFound   = "ResourceNotFoundException"
 	Validation = "ValidationException"
 	Internal   = "InternalServerError"
+	Transport  = "TransportFailure" // not an API error: surfaces as a plain error value
 )
 
 // Table has the documented key schema: hash key (string), range key (number).
@@ -118,6 +119,7 @@ type DB struct {
 	Tables    map[string]*Table
 	Lag       int  // eventually consistent reads see the state Lag writes ago
 	FailNext  bool // the next request is answered InternalServerError
+	FailPlain bool // ... or fails below the API level: a plain Go error (timeout / circuit breaker wrapper), no error code
 	StaleUsed int  // number of reads actually answered from an older snapshot
 }
 
@@ -193,6 +195,10 @@ func (d *DB) view(t *Table, consistent bool) []Item {
 func (d *DB) table(name *string) (*Table, *Err) {
 	if d.FailNext {
 		d.FailNext = false
+		if d.FailPlain {
+			d.FailPlain = false
+			return nil, &Err{Transport, "injected"}
+		}
 		return nil, &Err{Internal, "injected"}
 	}
 	if name == nil {
